@@ -32,7 +32,7 @@ import (
 // whole syncer; the leader/follower body itself (RunLeader/RunFollower) is not simulated.
 
 func init() {
-	Register(&PropertyDef{ID: "C15", Strata: []string{"free", "nofault", "expiry", "renewloop", "free", "renewloop_faults", "runcluster", "runcluster_faults", "twostore", "twostore_loop"}, Run: runC15, StepCap: 1200})
+	Register(&PropertyDef{ID: "C15", Strata: []string{"free", "nofault", "expiry", "renewloop", "free", "renewloop_faults", "runcluster", "runcluster_faults", "twostore", "twostore_loop", "refusal", "refusal_loop"}, Run: runC15, StepCap: 1200})
 }
 
 const c15StoreAddr = "10.0.9.1:6379"
@@ -153,6 +153,7 @@ type c15Sim struct {
 	srv2      *simredis.Server
 	lastSnap2 c15Snap
 	refuseA   bool // the first address refuses new connections
+	refusals  bool // strata refusal*: the store refuses writes for drawn stretches (fault store_refuses_writes_*)
 	execCtr   int  // global execution order over both stores
 	// contender goroutines by goroutine number: a connection belongs to the contender whose goroutine dialled it
 	gMu  sync.Mutex
@@ -662,9 +663,10 @@ func runC15(r *Run, stratum string) *Violation {
 		}
 	}
 	twoStore := strings.HasPrefix(stratum, "twostore")
-	s.faults = stratum == "free" || stratum == "expiry" || stratum == "renewloop_faults" || stratum == "runcluster_faults" || twoStore
+	s.refusals = strings.HasPrefix(stratum, "refusal")
+	s.faults = stratum == "free" || stratum == "expiry" || stratum == "renewloop_faults" || stratum == "runcluster_faults" || twoStore || s.refusals
 	s.realRunCluster = strings.HasPrefix(stratum, "runcluster")
-	looping := strings.HasPrefix(stratum, "renewloop") || s.realRunCluster || stratum == "twostore_loop"
+	looping := strings.HasPrefix(stratum, "renewloop") || s.realRunCluster || stratum == "twostore_loop" || stratum == "refusal_loop"
 	maxCalls := 8 + g.Choose("maxcalls", 53)
 	maxSteps := 120 + g.Choose("maxsteps", 500)
 
@@ -954,6 +956,18 @@ func (s *c15Sim) actions(stratum string, looping bool, maxCalls int) []pipeActio
 				s.srvOf(ss).KillSession(ss, 0)
 			}})
 		}
+		if s.refusals {
+			// the store stays up and refuses writes for a stretch: out of memory, or demoted to a read-only replica
+			if s.srv.RefuseWrites == "" {
+				acts = append(acts, pipeAction{"fault store refuses writes", 2, func() {
+					s.srv.RefuseWrites = []string{"OOM", "READONLY"}[r.Sched().Choose("refusal", 2)]
+					r.W.Fault("store_refuses_writes_" + strings.ToLower(s.srv.RefuseWrites))
+					r.Logf("  store answers writes with -%s", s.srv.RefuseWrites)
+				}})
+			} else {
+				acts = append(acts, pipeAction{"store accepts writes again", 3, func() { s.srv.RefuseWrites = "" }})
+			}
+		}
 		if s.srv2 != nil {
 			// the first address stops / resumes accepting NEW connections; the connections it has keep working
 			if !s.refuseA {
@@ -1188,11 +1202,31 @@ func (s *c15Sim) oracle(ops []*c15Op) *Violation {
 		if live {
 			hname = fmt.Sprintf("%s until %s", s.cs[holder].id, s.rel(expiry))
 		}
+		if o.ExecErr != "" && o.Kind != "leader" {
+			// the store answered the call with an error (strata refusal*: a write it refuses while out of memory or
+			// read-only): a failed call. Nothing was stored, extended or deleted (verified on the stored lease), and the
+			// caller must not have been told a success.
+			r.W.Probe("c15_call_refused_by_store")
+			if o.Before != o.After {
+				return s.viol("C15.refused_changed", "a call the store answered with an error changed the stored lease",
+					"%s of %s executed at %s was answered %q and changed the stored lease from %+v to %+v. History (store order):%s", o.Kind, s.cs[o.Who].id, s.rel(t), o.ExecErr, o.Before, o.After, hist(o))
+			}
+			if o.told() && o.success() && (o.Kind == "campaign" || o.Kind == "renew") {
+				return s.viol("C15.told_despite_error", "an instance was told it is leader although the store answered its call with an error",
+					"%s of %s executed at %s was answered %q by the store, the instance was told success. History (store order):%s", o.Kind, s.cs[o.Who].id, s.rel(t), o.ExecErr, hist(o))
+			}
+			continue
+		}
 		switch o.Kind {
 		case "campaign", "renew":
 			grant := !live || holder == o.Who
 			if o.told() {
 				ok := o.success()
+				if ok && (!o.After.Present || o.After.Value != s.cs[o.Who].id) {
+					return s.viol("C15.told_without_lease", "an instance was told it is leader although the store holds no lease for it",
+						"%s of %s executed by the store at %s was answered with success, but the lease the store holds right after the execution is %+v (before: %+v): the instance acts as leader without a lease, the next contender is granted one. History (store order):%s",
+						o.Kind, s.cs[o.Who].id, s.rel(t), o.After, o.Before, hist(o))
+				}
 				if ok && !grant {
 					return s.viol("C15.two_holders", "grant while another contender holds an unexpired lease",
 						"%s of %s executed by the store at %s was answered with success although the lease is held by %s (ttl %ds). History (store order):%s",
@@ -1437,7 +1471,15 @@ func (s *c15Sim) oracle(ops []*c15Op) *Violation {
 			return nil
 		}
 	}
-	if v := s.porcupineCheck(ex); v != nil {
+	// (a call the store answered with an error is a failed call that changed nothing - rule (1) verified that - and no
+	// operation of the sequential lease object)
+	exOK := ex[:0:0]
+	for _, o := range ex {
+		if o.ExecErr == "" || o.Kind == "leader" {
+			exOK = append(exOK, o)
+		}
+	}
+	if v := s.porcupineCheck(exOK); v != nil {
 		return v
 	}
 	return nil
